@@ -3,7 +3,7 @@
 From Coq Require Import List NArith Bool Arith Lia String.
 From SV Require Import lib.Bytes sieve.Lexer sieve.Tables sieve.ArgCheck sieve.ArgSpec sieve.Machine sieve.Printer
   gen.GenTables sieve.ArgCheckFacts sieve.TotalFacts sieve.LexerFacts sieve.CompleteFacts sieve.CompleteTree
-  sieve.CompleteExamples sieve.RenderFacts sieve.PrintTree.
+  sieve.CompleteExamples sieve.RenderFacts sieve.PrintTree sieve.CanonFacts sieve.CanonTree.
 Import ListNotations.
 
 Ltac val :=
@@ -68,5 +68,52 @@ Proof.
   vm_compute. lia.
 Qed.
 
+(* ---- arguments NOT in definition order, a repeated tag: the general theorem applies *)
+
+Definition ex2_script : list gcmd :=
+  [ GAct (bs "REQUIRE") [(TyStringList, VList [q "relational"; q "fileinto"; q "copy"])];
+    GCtl (bs "If")
+         (GSimple (bs "header") [(TyTag, VStr (bs ":is")); (TyTag, VStr (bs ":count")); (TyString, VStr (q "ge"));
+                                 (TyTag, VStr (bs ":comparator")); (TyString, VStr (q "i;octet"));
+                                 (TyString, VStr (q "Received")); (TyString, VStr (q "3"))])
+         [ GAct (bs "fileinto") [(TyTag, VStr (bs ":copy")); (TyString, VStr (q "many hops"))] ] ].
+
+Ltac argpr :=
+  repeat (apply Forall_cons || apply Forall_nil);
+  first [ vm_compute; reflexivity | apply num_okb_ok; vm_compute; reflexivity
+        | split; [discriminate | repeat (apply Forall_cons || apply Forall_nil); vm_compute; reflexivity] ].
+
+Example ex2_wf : exists L' ns, wf_cmds gen_tables [] None ex2_script ns L'.
+Proof.
+  eexists. eexists. unfold ex2_script.
+  eapply wf_cons; [act|].
+  eapply wf_cons; [|apply wf_nil].
+  eapply wf_ctl; [vmr|vmr|vmr|vmr|vmr|vmr|simple_t|].
+  eapply wf_cons; [act|apply wf_nil].
+Qed.
+
+Example ex2_printable : Forall cmd_pr ex2_script.
+Proof.
+  unfold ex2_script. repeat (apply Forall_cons || apply Forall_nil).
+  - apply pr_act; [vmr|argpr].
+  - apply pr_ctl; [vmr|apply pr_simple; [vmr|argpr]|].
+    repeat (apply Forall_cons || apply Forall_nil). apply pr_act; [vmr|argpr].
+Qed.
+
+Example ex2_tbl_ok : tbl_ok gen_tables = true.
+Proof. vm_compute. reflexivity. Qed.
+
+(* the printed form of its tree parses to a tree with the same content and is a fixed point of printing *)
+Example ex2_roundtrip : forall ns L',
+  wf_cmds gen_tables [] None ex2_script ns L' ->
+  exists ns', parse gen_tables (tosieve_all 5 ns) = Accept ns' /\ Forall2 nsim ns' ns /\
+              tosieve_all 5 ns' = tosieve_all 5 ns.
+Proof.
+  intros ns L' Hwf.
+  apply (print_parse_general gen_tables ex2_tbl_ok twf_gen_tables ex2_script ns L' 5 Hwf ex2_printable); [discriminate|].
+  vm_compute. lia.
+Qed.
+
 Print Assumptions ex_canon.
+Print Assumptions ex2_roundtrip.
 Print Assumptions ex_roundtrip.
